@@ -132,6 +132,10 @@ def _gen_case(rng, tier, g):
             'exc_kinds': rng.sample(SOURCE_ERROR_KINDS,
                                     rng.choice([1, 2, 3])),
             'transient': rng.random() < 0.3,
+            'todb_extra': rng.choice([None, None, None, {'drop': True},
+                                      {'drop': True, 'create': False},
+                                      {'constraints': False},
+                                      {'sample': 1}, {'dialect': 'sqlite'}]),
             'read_via': rng.choice(['conn', 'name', 'mkcurs', 'cursor',
                                     'proxy-mkcurs', 'proxy-cursor']),
             'arraysize': rng.choice([None, 1, 2, 4, 50]),
@@ -233,6 +237,7 @@ _TNAME = ['t']
 
 
 _FLUENT = [False]
+_TODB_EXTRA = [None]
 
 
 def _load(e, op, src, dbo, commit):
@@ -243,6 +248,8 @@ def _load(e, op, src, dbo, commit):
     if _SCHEMA[0] is not None:
         kw['schema'] = _SCHEMA[0]
     if op == 'todb':
+        # (arguments that only matter together with create=True)
+        kw.update(_TODB_EXTRA[0] or {})
         e.todb(src, dbo, _TNAME[0], commit=commit, **kw)
     else:
         e.appenddb(src, dbo, _TNAME[0], commit=commit, **kw)
@@ -554,6 +561,7 @@ def run_case(case):
     _SCHEMA[0] = case.get('schema')
     _TNAME[0] = case.get('tname', 't')
     _FLUENT[0] = bool(case.get('fluent'))
+    _TODB_EXTRA[0] = case.get('todb_extra')
     # a failure that would not repeat (a busy database, a timeout): armed for
     # one pass over the source only - code that retries the load sees a
     # healthy source the second time
